@@ -408,6 +408,7 @@ def _node(draw, cfg, depth, gen, kinds=None):
         for k in chosen:
             if k == "items":
                 if draw(st.integers(0, 2)) == 0:
+                    # never an empty tuple: `items: []` is not a valid Draft-6 schema
                     subs[k] = [draw(sub_node()) for _ in range(draw(st.integers(1, 3)))]
                 else:
                     subs[k] = draw(sub_node())
